@@ -42,7 +42,9 @@ def inputs():
     p3 = gen.transform(gen.peptide(["ARG", "ALA", "TYR"], chain="B", start=11), t=(0, 30, 0))
     w1 = gen.water((6, 14, 4), chain="", resseq=201) + gen.water((6, 44, 4), chain="B", resseq=202) + gen.water((6, 14, 34), chain="", resseq=203)
     reassigned = gen.pdb_text([p1 + p2, w1[:1], p3, w1[1:]])
-    return {"two-chains-pro": two, "neutral": neutral, "neutral-free": neutral_free, "reassigned": reassigned}
+    # coordinates that fill their columns (x, y, z <= -100 or >= 1000)
+    wide = gen.pdb_text([gen.transform(a + w[:1], t=(-95.0, -150.0, -120.0)), gen.transform(b + w[1:], t=(1005.0, 995.0, 1100.0))])
+    return {"two-chains-pro": two, "neutral": neutral, "neutral-free": neutral_free, "reassigned": reassigned, "wide": wide}
 
 
 def parse_pqr(text, ws=None):
@@ -186,6 +188,17 @@ def run(ctx):
             a2 = a1 + [FORMAT_ARGS[k].replace("@FFOUT@", "AMBER") for k in toggled]
             jobs.append({"kind": "format", "input1": texts["reassigned"], "input2": texts["reassigned"], "args1": a1, "args2": a2,
                          "toggled": toggled, "what": f"reassigned-chains {base} ff={ff} toggled={toggled}"})
+    # coordinates that fill their columns, under every subset of the layout options
+    for toggled in (["whitespace"], ["whitespace", "keepChain"], ["keepChain"], ["whitespace", "ffout"]):
+        a1 = ["--ff=AMBER", "--noopt"]
+        a2 = a1 + [FORMAT_ARGS[k].replace("@FFOUT@", "CHARMM") for k in toggled]
+        jobs.append({"kind": "format", "input1": texts["wide"], "input2": texts["wide"], "args1": a1, "args2": a2, "toggled": toggled,
+                     "what": f"wide-coordinates toggled={toggled}"})
+    # titration at pH values where the force fields differ in the states they can name, with another naming scheme
+    for ff, ffout, ph in (("PARSE", "AMBER", 12), ("PARSE", "CHARMM", 12), ("AMBER", "PARSE", 12), ("PARSE", "AMBER", 1), ("CHARMM", "PARSE", 13))[:(3 if ctx.quick else 5)]:
+        a1 = [f"--ff={ff}", "--titration-state-method=propka", f"--with-ph={ph}"]
+        jobs.append({"kind": "format", "input1": texts["two-chains-pro"], "input2": texts["two-chains-pro"], "args1": a1, "args2": a1 + [f"--ffout={ffout}"],
+                     "toggled": ["ffout"], "what": f"two-chains-pro propka pH {ph} ff={ff} toggled=['ffout'] ffout={ffout}"})
     lig = os.path.join(core.REPO, "tests", "data", "acetate.mol2")
     ligtext = gen.pdb_text([gen.peptide(["ALA", "SER", "LYS"], chain="A"), gen.ligand_hetatm(lig, move_to=(-14, -12, 6)),
                             gen.water((6, 14, 4), chain="A", resseq=101)])
